@@ -20,7 +20,8 @@ DANGEROUS = [("verif_sink", "hit"), ("verif_pkg.sub", "thing"), ("verif_pkg", "s
              # sub-modules of installed third-party packages the ML features know about (not in the static allow-list, and
              # the package is not imported by an analysis process): importing the package is observable
              ("torch.nn.parameter", "Parameter"), ("torch.jit", "ScriptModule"), ("numpy.random", "RandomState"),
-             ("numpy.lib.npyio", "load")]
+             ("numpy.lib.npyio", "load"),
+             ("verif_lazy", "x")]      # registered in sys.modules by a LazyLoader, body not run yet (any attribute read runs it)
 ASSUME = ["effects are observed through CPython audit events (import, exec, open, os.system/exec*/spawn/fork, subprocess.Popen, socket.*, "
           "ctypes.*, pickle.find_class, marshal.loads), a recording meta-path finder, a logging sink module, sys.modules and "
           "scratch-directory deltas; reading an attribute of an already imported real module without calling it is invisible",
